@@ -24,8 +24,9 @@ class Pair:
     def __init__(self, winA, maxA, winB, maxB, nthr):
         self.nthr = nthr
         self.winB = winB
-        self.A = lib_chan.Rig(winA, winB, maxB, nthr, chanid=1, base=0)
-        self.B = lib_chan.Rig(winB, winA, maxA, nthr, chanid=2, base=nthr)
+        # the two ends know the channel under DIFFERENT ids (as after a refused open on one side)
+        self.A = lib_chan.Rig(winA, winB, maxB, nthr, chanid=3, base=0, remote_id=8)
+        self.B = lib_chan.Rig(winB, winA, maxA, nthr, chanid=8, base=nthr, remote_id=3)
         self.ab, self.ba = [], []
         self.curA = self.curB = 0
         self.last_discard = False
@@ -206,6 +207,9 @@ def run_pair(ctx, rng, with_close):
         if pair.last_discard:
             info["discards"] += 1
         for side, rig in (("a", pair.A), ("b", pair.B)):
+            pp = rig.protocol_problem()
+            if pp is not None and not fails:
+                fails.append(("%s:side-%s" % (pp[0], side), pp[1]))
             lw = rig.lost_wakeup()
             if lw is not None and not fails:
                 fails.append(("lost-wakeup:parked-sender-not-notified",
@@ -281,8 +285,7 @@ def run(ctx):
     import paramiko.channel as chmod
     from pv import lib_chanlock
     sites, notifies = lib_chanlock.channel_tables(chmod.Channel)
-    ctx.write_generated("ChanLock", lib_chanlock.lean_tables(sites, notifies,
-                                                             lib_chanlock.window_accesses(chmod.Channel)))
+    ctx.write_generated("ChanLock", lib_chanlock.lean_tables_for(chmod.Channel))
     ctx.extra["notify_sites"] = ["%s:%s:%s" % (x["caller"], x["kind"], "locked" if x["eff"] else "UNLOCKED")
                                  for x in notifies]
     ctx.build(extra_modules=["PV.Model.ChanDriver"])
